@@ -212,6 +212,17 @@ def r2_precision(ctx, chk, rule="C14.2"):
             amap.update({k.arg: k.value for k in c.keywords})
             darg = amap.get(ps[1])
             ok, val = ctx.prog.try_const(darg, f.mod) if darg is not None else (False, None)
+            if not ok and isinstance(darg, ast.Name) and darg.id in f.params and not any(
+                    isinstance(x, ast.Name) and x.id == darg.id and isinstance(x.ctx, ast.Store) for x in walk_no_nested_defs(f.node)):
+                # the digits are a parameter of the step: what the solver passes for it (its own precision), else the default
+                from ..ctxbind import specialise
+                bound = getattr(specialise(ctx, f), "bound_params", {}).get(darg.id)
+                if bound is not None:
+                    try:
+                        val = ast.literal_eval(bound)
+                        ok = isinstance(val, int) and not isinstance(val, bool)
+                    except (ValueError, SyntaxError):
+                        ok = False
             if ok and val == tc["d"]:
                 chk.ok(rule, f.where(c), "Player 2 rounds reachability values to %r digits = solver precision (threshold %g)" % (val, tc["T"]))
             elif ok:
